@@ -239,7 +239,7 @@ func (cx *Ctx) c18Provenance(r *Report, set hev, where string, oracle bool) {
 	v = set.w.expandCalls(set.ev.Fr, v, 3)
 	s := v.LooseString()
 	okShape := strings.Contains(s, "big.Rat.FloatString(") && strings.HasSuffix(strings.TrimRight(s, ")"), ", 20") && (strings.Contains(s, ".GetRand(") || strings.Contains(s, "big.Rat.SetFrac("))
-	okIn := strings.Contains(s, "sdk.Context.BlockHeader().AppHash") && strings.Contains(s, "sdk.Context.BlockHeader().Time") && strings.Contains(s, ".Consumer")
+	okIn := strings.Contains(s, "sdk.Context.BlockHeader().AppHash") && strings.Contains(s, "sdk.Context.BlockTime()") && strings.Contains(s, ".Consumer")
 	if oracle {
 		okIn = okIn && strings.Contains(s, "hex.DecodeString(") && strings.Contains(s, "responseOutput[0]")
 	}
@@ -255,7 +255,7 @@ func (cx *Ctx) c18Provenance(r *Report, set hev, where string, oracle bool) {
 		}
 		if t.Op == "call" {
 			n := t.Name
-			allowed := n == "sdk.Context.BlockHeader" || strings.HasPrefix(n, "random/types.") || strings.HasPrefix(n, "random/keeper.Keeper.GetOracleRandRequest") || strings.HasPrefix(n, "big.") || strings.HasPrefix(n, "time.Time.Unix") ||
+			allowed := n == "sdk.Context.BlockHeader" || n == "sdk.Context.BlockTime" || strings.HasPrefix(n, "random/types.") || strings.HasPrefix(n, "random/keeper.Keeper.GetOracleRandRequest") || strings.HasPrefix(n, "big.") || strings.HasPrefix(n, "time.Time.Unix") ||
 				strings.HasPrefix(n, "codec.") || strings.HasPrefix(n, "out:codec.") || strings.HasPrefix(n, "cosmos-db.Iterator.") || strings.HasPrefix(n, "random/keeper.Keeper.IterateRandomRequestQueueByHeight") || strings.HasPrefix(n, "storetypes.") || n == "addr" || n == "str" || strings.HasPrefix(n, "hex.") || strings.HasPrefix(n, "gjson.") || strings.HasPrefix(n, "proto.Header") || strings.HasPrefix(n, "types.Header") || n == "varargs" || strings.HasPrefix(n, "bytes.HexBytes")
 			if !allowed && bad == "" {
 				bad = n
